@@ -407,7 +407,8 @@ class SigmaString(SigmaType):
         return self.to_plain(regex=True)
 
     def __bytes__(self) -> bytes:
-        return str(self).encode()
+        # the characters of the value itself, without the escaping backslashes of the plain form
+        return self.to_plain(regex=True).encode()
 
     def __len__(self) -> int:
         return sum(
